@@ -782,6 +782,8 @@ class Piece:
                 keep = [n for n in names if n not in SERDE_DERIVES and (n in self.keep_derives or n not in self.unit.drop_derives)]
                 if keep != names:
                     self._add(start, end, f"#[derive({', '.join(keep)})]" if keep else "", "T-ATTR")
+                    if "Clone" in names and "Clone" not in keep and it.kind in ("struct", "enum"):
+                        self.dropped_clone = True
             k = close + 1
 
     def _note_serde(self, inner, where=""):
@@ -1146,6 +1148,14 @@ class Piece:
             self._add(toks[kb].end, toks[kb].end, "\n" + fs.body_start + "\n", "insert")
         # loops
         lps = loops_in(toks, kb, k1)
+        if not lps and (fs.loops or getattr(fs, "counted", None) or any(a_[0].startswith("loop_") for a_ in fs.at)):
+            # the function has no loop any more: its loop contracts (invariants, the proof steps placed in or around loops) have nothing
+            # left to say, and what remains is straight-line code that the postconditions are checked against directly
+            import copy as _copy0
+            fs = _copy0.copy(fs)
+            fs.loops, fs.counted = {}, {}
+            fs.at = [a_ for a_ in fs.at if not a_[0].startswith("loop_")]
+            self.unit.loopless.add(fn.name)
         # a loop may be named by its ordinal or by a regex over its header (`for x in xs.iter()` ..): a keyed contract follows its
         # loop when statements are moved around
         def _loop_no(key):
@@ -1230,6 +1240,13 @@ class Piece:
             # (`?`, return, break) differ: the invariant at the loop head still means what it meant, and every path through the
             # body - old or new - is checked against it and against the function's postconditions
             pa, pb = a.split("|"), b.split("|")
+            if keyed_ and len(pb) < len(pa) and not (getattr(fs, "counted", None) or {}):
+                # loops without a contract of their own have gone (their work is now straight-line code or a helper call): every loop
+                # that does carry a contract - named by its header, and found - must still be of the kind it was, with the same `continue`s
+                def core(z):
+                    h_, _, j_ = z.partition(":")
+                    return (h_, tuple(t for t in j_.split(",") if t == "continue"))
+                return all(any(core(pb[c_ - 1]) == core(x_) for x_ in pa) for c_ in fs.loops)
             if len(pa) != len(pb):
                 return False
             if keyed_ and not (getattr(fs, "counted", None) or {}):
@@ -1249,11 +1266,13 @@ class Piece:
                 if [t for t in jx.split(",") if t in keep] != [t for t in jy.split(",") if t in keep]:
                     return False
             return True
-        if want_sig is not None and want_sig != lsig and not getattr(fs, "shape_free", False) and not _same_but_more_exits(want_sig, lsig):
+        if want_sig is not None and want_sig != lsig and lps and not getattr(fs, "shape_free", False) and not _same_but_more_exits(want_sig, lsig):
             self.unit.reshaped.add(fn.name)
         self.unit.shapes[f"{self.relpath}::{self.spec}::{fn.name}"] = len(lps)
         want = self.unit.baseline_shapes.get(f"{self.relpath}::{self.spec}::{fn.name}")
-        if want is not None and want != len(lps):
+        if want is not None and want != len(lps) and len(lps) > 0 and not (len(lps) < want and keyed_):
+            # (fewer loops than before, every contracted loop named by its header and found: the loops that went away carried no
+            # contract of their own - what replaced them is verified as it stands)
             raise Undecided(f"{fn.name}: has {len(lps)} loops, the contract was written for {want} (a new loop needs its own invariant)")
         # anchors
         fstart, fend = toks[kb].start, toks[k1].end
@@ -1401,6 +1420,8 @@ class Piece:
             logs = [e for e in self.edits if e.rule == "T-LOG"]
             ms = [m for m in ms if not any(e.start <= wstart + m.start() and wstart + m.end() <= e.end for e in logs)]
             if want is not None and len(ms) != want:
+                if fn.name in self.unit.loopless and len(ms) == 0:
+                    continue   # the text the rule was for (a loop's) is gone with the loops; whatever replaced it is verified as it stands
                 raise Undecided(f"{fn.name}: rewrite {rule} pattern matched {len(ms)} times, expected {want}")
             for m in ms:
                 new = m.expand(repl) if isinstance(repl, str) else repl(m)
@@ -1723,6 +1744,7 @@ class Unit:
             self.baseline_attrs = None
         self.attrsigs = {}   # item -> the serde attributes the extraction dropped from it (T-ATTR): the JSON wire mapping of the type
         self.loopsigs = {}
+        self.loopless = set()   # functions that had loops when their contracts were written and have none now
         self.reshaped = set()   # functions whose loops have another control skeleton than the one their contracts were written for
         self.macro_fns = {}  # name -> call template (T-MACRO-FN: the macro body lives in a verified helper fn)
         self.vacuity = False
@@ -1831,6 +1853,24 @@ class Unit:
         self.macro_fns[name] = call
         self.macro_fn_props = props or []
 
+    def new_methods(self, relpath, type_name):
+        """methods of `impl TYPE` in the source file that did not exist when the contracts were written (absent from
+        baseline_shapes.json:__fns__): [(name, receiver)] with receiver in {"&mut self", "&self", "self", ""}"""
+        sf = source(relpath)
+        known = set(self.baseline_fns.get(relpath, []))
+        if not known:
+            return []
+        out = []
+        for it in sf._all_items():
+            if it.kind == "impl" and re.search(r"impl(?:<[^>]*>)?\s+" + re.escape(type_name) + r"\b", sf.text[it.start:it.start + 200].split("{")[0]) \
+                    and " for " not in sf.text[it.start:it.start + 200].split("{")[0]:
+                for c in it.children:
+                    if c.kind == "fn" and c.name not in known:
+                        hdr = " ".join(sf.text[c.start:c.end].split("{")[0].split())
+                        m = re.search(r"\(\s*(&\s*mut\s+self|&\s*self|mut\s+self|self)\b", hdr)
+                        out.append((c.name, " ".join(m.group(1).split()) if m else ""))
+        return out
+
     def verify(self, relpath, spec, module, fns=None, props=None):
         return self.take(relpath, spec, module, "verify", fns, props)
 
@@ -1936,6 +1976,9 @@ class Unit:
         consts = [re.sub(r":\s*&\s*(?!')", ": &'static ", c_, count=1) for c_ in consts]
         return uses, consts
 
+    def sf_text_of(self, p):
+        return p.sf.text[p.item.start:p.item.end]
+
     def build(self):
         """Return (text, regions, meta). regions: list of dicts with gen byte range + origin."""
         self.auto_log = []
@@ -1952,6 +1995,13 @@ class Unit:
             out.append(s)
             pos += len(b)
 
+        whole_unit_text = ""
+        for pn in self.preludes:
+            whole_unit_text += open(os.path.join(VERIF, "prelude", pn + ".rs"), encoding="utf-8").read() + "\n"
+        for m2 in self.modules.values():
+            for part in m2["parts"]:
+                if part[0] == "raw":
+                    whole_unit_text += part[1] + "\n"
         emit("#![feature(allocator_api)]\n", kind="glue")
         emit("#![allow(unused_imports, dead_code, unused_variables, unused_mut, unused_parens, "
              "unused_braces, unreachable_code, non_snake_case, unused_assignments, unused_macros)]\n"
@@ -1993,6 +2043,14 @@ class Unit:
                             emit(txt, kind=("orig" if rule == "orig" else "insert" if rule == "insert" else "rewrite"),
                                  rule=rule, piece=p, src_from=frm)
                         emit(post + "\n", kind="glue")
+                        if getattr(p, "dropped_clone", False) and p.item.kind in ("struct", "enum") and getattr(p.item, "name", None):
+                            nm = p.item.name
+                            hdr_ = self.sf_text_of(p)
+                            generic = bool(re.search(r"\b(?:struct|enum)\s+" + re.escape(nm) + r"\s*<", hdr_))
+                            if not generic and not re.search(r"impl\s+(?:std::clone::)?Clone\s+for\s+" + re.escape(nm) + r"\b", whole_unit_text):
+                                # #[derive(Clone)] (dropped by T-ATTR because of field types Verus cannot derive through) restated: a structural copy
+                                emit(f"impl Clone for {nm} {{ #[verifier::external_body] fn clone(&self) -> (r: Self) ensures r == *self {{ unimplemented!() }} }}\n",
+                                     kind="trusted", module=path)
                 emit("} // verus!\n", kind="glue")
             for seg, sub in node.items():
                 emit_module((path + "::" if path else "") + seg, sub, depth + 1)
